@@ -140,11 +140,12 @@ func subdecks(tier string) []subdeck {
 	ds := []subdeck{
 		{"wheel-broadway-2suits", cross("SH", "A2345TJQK"), "standard", 2, 0, []int{5, 6, 7}},
 		{"quads-boats-4suits", cross("SHDC", "AK76"), "standard", 2, 0, []int{5, 6, 7}},
-		{"short-flush-vs-boat", cross("SHD", "KQJT97"), "short", 2, 0, []int{5, 6, 7}},
+		{"short-flush-vs-boat", cross("SHD", "KQJ97"), "short", 2, 0, []int{5, 6, 7}},
 		{"omaha-exactly-two", cross("SH", "A2345K"), "standard", 4, 2, []int{7, 8, 9}},
 	}
 	if tier == "thorough" {
 		ds = append(ds,
+			subdeck{"short-flush-vs-boat-straights", cross("SHD", "KQJT97"), "short", 2, 0, []int{5, 6, 7}},
 			subdeck{"trips-quads-lowstraight", cross("SHDC", "A9876"), "standard", 2, 0, []int{5, 6, 7}},
 			subdeck{"short-A9876", cross("SHDC", "A9876"), "short", 2, 0, []int{5, 6, 7}},
 			subdeck{"omaha-16", cross("SHDC", "AK32"), "standard", 4, 2, []int{7, 8, 9}},
